@@ -81,6 +81,52 @@ Theorem C08_answer_consumes :
 Proof. exact step_ans. Qed.
 Print Assumptions C08_answer_consumes.
 
+(* C08_open_answered, as far as the service is responsible.
+   (a) acceptance: an OpenSubstream command (produced only by an accepted open_substream, see
+       C08_primary_only) puts the returned identifier in flight on that connection;
+   (b) persistence: an identifier in flight stays in flight over any step unless that step hands
+       the protocol an answer carrying it, or reports its connection closed;
+   (c) over a whole history: every accepted open is, at the end, still in flight on its
+       connection, or answered, or its connection was reported closed after it. *)
+Theorem C08_open_in_flight :
+  forall s dt e c id,
+  pend_inv s -> In (OCmd c id) (snd (step s dt e)) ->
+  exists p, pfind id (s_pend (fst (step s dt e))) = Some (p, c).
+Proof. exact step_accept. Qed.
+Print Assumptions C08_open_in_flight.
+
+Theorem C08_in_flight_until_answered_or_closed :
+  forall s dt e id k,
+  pfind id (s_pend s) = Some k ->
+  pfind id (s_pend (fst (step s dt e))) = Some k \/ In id (ans_ids (snd (step s dt e))) \/
+  exists p, e = EClosed p (snd k).
+Proof. exact step_inflight. Qed.
+Print Assumptions C08_in_flight_until_answered_or_closed.
+
+Theorem C08_open_resolution :
+  forall tr s c id,
+  pend_inv s -> In (OCmd c id) (concat (run s tr)) ->
+  (exists p, pfind id (s_pend (final s tr)) = Some (p, c)) \/
+  In id (ans_ids (concat (run s tr))) \/
+  exists dt p, In (dt, EClosed p c) tr.
+Proof. exact opened_resolution. Qed.
+Print Assumptions C08_open_resolution.
+
+(* "at most once, and exactly once unless its connection terminates first": under the explicit
+   ENVIRONMENT HYPOTHESIS that the open is no longer in flight at the end of the history — i.e.
+   the connection task answered the command it received (tcp/connection.rs answers each
+   OpenSubstream with opened or failure, C07's side) or was reported closed — every accepted
+   open has exactly one answer with its own identifier, or its connection was closed; never two. *)
+Theorem C08_open_answered :
+  forall tr ka T n0 c id,
+  In (OCmd c id) (concat (run (init ka T n0) tr)) ->
+  pfind id (s_pend (final (init ka T n0) tr)) = None ->
+  (count_occ N.eq_dec (ans_ids (concat (run (init ka T n0) tr))) id <= 1)%nat /\
+  (count_occ N.eq_dec (ans_ids (concat (run (init ka T n0) tr))) id = 1%nat \/
+   exists dt p, In (dt, EClosed p c) tr).
+Proof. exact open_answered. Qed.
+Print Assumptions C08_open_answered.
+
 (* Without C06's "at most two connections per peer" the statement is false: with three, closing
    the ignored third drops the live secondary (secondary.take() on an unknown id), and the
    protocol is told "closed" while a connection is open and then handed a substream. *)
